@@ -10,7 +10,7 @@ pub const RULE: &str = "case = one valid base file (generated with 1..3 records,
 
 pub const REQUIRED: &[&str] = &[
     "reader.jaspar", "reader.jaspar16", "reader.transfac", "reader.uniprobe", "reader.protein", "input.empty",
-    "input.prefix", "input.substitution", "input.deletion", "input.insertion", "input.no_final_newline",
+    "input.prefix", "input.substitution", "input.deletion", "input.insertion", "input.multibyte_insertion", "input.no_final_newline",
     "input.ragged", "input.header_only", "input.matrix_only", "input.huge_number", "input.duplicate_symbol",
     "input.random_bytes", "input.invalid_utf8", "outcome.error", "outcome.records", "schedule.chunked",
     "schedule.cursor", "cross_format",
@@ -133,6 +133,23 @@ fn derive_and_feed(case: u64, rng: &mut Rng, rep: &mut Report, cfg: &Config, for
                     send(rng, rep, &buf, "insertion");
                 }
             }
+        }
+    }
+    // a multi-byte character (valid UTF-8, 2 / 3 / 4 bytes) inserted at every offset, also overwriting
+    // the byte that follows: character boundaries no longer coincide with the byte offsets a parser assumes
+    const MULTI: [&str; 4] = ["\u{e9}", "\u{20ac}", "\u{1d11e}", "\u{3b2}"];
+    for off in 0..=base.len() {
+        if std::str::from_utf8(&base[..off]).is_err() {
+            continue;
+        }
+        let ch = if cfg.thorough() { MULTI[off % 4] } else { *rng.pick(&MULTI) };
+        buf.clear();
+        buf.extend_from_slice(&base[..off]);
+        buf.extend_from_slice(ch.as_bytes());
+        let skip = if rng.chance(0.5) { 0 } else { 1 };
+        if off + skip <= base.len() && std::str::from_utf8(&base[off + skip..]).is_ok() {
+            buf.extend_from_slice(&base[off + skip..]);
+            send(rng, rep, &buf, "multibyte_insertion");
         }
     }
     // structural damage on the line level
